@@ -228,4 +228,287 @@ theorem agreeing_ge (cfg : Cfg) (cs : List Cand) (pre suf : List Bound) (t : F64
     unfold agreeing; rw [List.countP_eq_length_filter]
   omega
 
+/-! ### second sweep invariant (uses the sortedness of the bound list) -/
+
+/-- invariant of the sweep after the prefix `done` of a sorted list -/
+structure Inv2 (done : List Bound) (s : Sweep) : Prop where
+  hl : s.maxhigh ≤ s.maxlow
+  cl : s.cur ≤ s.maxlow
+  peak : s.cur = s.maxlow ∨ s.maxhigh = s.maxlow
+  tlow : 0 < s.maxlow → (s.maxtlow, BT.start) ∈ done
+  thigh : 0 < s.maxhigh → (s.maxthigh, BT.stop) ∈ done
+  ord : s.maxhigh = s.maxlow → 0 < s.maxlow → F64.totalLe s.maxtlow s.maxthigh = true
+
+theorem inv2_init : Inv2 [] Sweep.init :=
+  ⟨Nat.le_refl _, Nat.le_refl _, Or.inl rfl, fun h => absurd h (by decide), fun h => absurd h (by decide),
+   fun _ h => absurd h (by decide)⟩
+
+theorem inv2_step {done : List Bound} {s s1 : Sweep} {b : Bound} (hi : Inv2 done s)
+    (hle : ∀ x ∈ done, boundLe x b = true) (h : sweepStep s b = some s1) : Inv2 (done ++ [b]) s1 := by
+  obtain ⟨t, k⟩ := b
+  obtain ⟨hl, cl, peak, tlow, thigh, ord⟩ := hi
+  cases k with
+  | start =>
+    simp only [sweepStep] at h
+    split at h
+    · rename_i hgt
+      cases h
+      refine ⟨by simp only; omega, by simp only; omega, Or.inl rfl, ?_, ?_, ?_⟩
+      · intro _; simp
+      · intro h0; simp only at h0 ⊢; exact List.mem_append_left _ (thigh h0)
+      · intro he; simp only at he; omega
+    · rename_i hgt
+      cases h
+      refine ⟨hl, by simp only; omega, ?_, ?_, ?_, ?_⟩
+      · simp only; rcases peak with p | p
+        · omega
+        · exact Or.inr p
+      · intro h0; exact List.mem_append_left _ (tlow h0)
+      · intro h0; exact List.mem_append_left _ (thigh h0)
+      · exact ord
+  | stop =>
+    simp only [sweepStep] at h
+    split at h
+    · cases h
+    · rename_i hc
+      cases h
+      by_cases hgt : s.cur > s.maxhigh
+      · simp only [hgt, if_true]
+        refine ⟨cl, by simp only; omega, ?_, ?_, ?_, ?_⟩
+        · simp only
+          rcases peak with p | p
+          · exact Or.inr p
+          · omega
+        · intro h0; exact List.mem_append_left _ (tlow h0)
+        · intro _; simp
+        · intro _ h0
+          have hm := tlow h0
+          have := hle _ hm
+          simpa [boundLe] using this
+      · simp only [hgt, if_false]
+        refine ⟨hl, by simp only; omega, ?_, ?_, ?_, ?_⟩
+        · simp only
+          rcases peak with p | p
+          · right; omega
+          · exact Or.inr p
+        · intro h0; exact List.mem_append_left _ (tlow h0)
+        · intro h0; exact List.mem_append_left _ (thigh h0)
+        · exact ord
+
+theorem sweep_inv2 {rest done : List Bound} {s s' : Sweep} (hi : Inv2 done s)
+    (hpw : (done ++ rest).Pairwise (fun a b => boundLe a b = true))
+    (h : sweep rest s = some s') : Inv2 (done ++ rest) s' := by
+  induction rest generalizing done s with
+  | nil => simp only [sweep, Option.some.injEq] at h; subst h; simpa using hi
+  | cons b bs ih =>
+    simp only [sweep] at h
+    split at h
+    · cases h
+    · rename_i s1 hs1
+      have hle : ∀ x ∈ done, boundLe x b = true := by
+        intro x hx
+        exact (List.pairwise_append.mp hpw).2.2 x hx b (List.mem_cons_self ..)
+      have hpw' : ((done ++ [b]) ++ bs).Pairwise (fun a b => boundLe a b = true) := by
+        simpa using hpw
+      have := ih (inv2_step hi hle hs1) hpw' h
+      simpa using this
+
+/-! ### where the bounds come from -/
+
+theorem mem_bounds_start {cfg : Cfg} {cs : List Cand} {t : F64} (h : (t, BT.start) ∈ bounds cfg cs) :
+    ∃ c ∈ elig cfg cs, t = lo cfg c := by
+  induction cs with
+  | nil => simp [bounds] at h
+  | cons c cs ih =>
+    unfold bounds at h
+    unfold elig
+    by_cases he : eligible cfg c = true
+    · simp only [he, if_true, List.mem_cons, Prod.mk.injEq, reduceCtorEq, and_false, false_or] at h
+      rw [List.filter_cons_of_pos he]
+      rcases h with ⟨h1, _⟩ | h
+      · exact ⟨c, List.mem_cons_self .., h1⟩
+      · obtain ⟨c', hc', e⟩ := ih h
+        exact ⟨c', List.mem_cons_of_mem _ hc', e⟩
+    · simp only [he, if_false, Bool.false_eq_true] at h
+      rw [List.filter_cons_of_neg he]
+      exact ih h
+
+theorem mem_bounds_stop {cfg : Cfg} {cs : List Cand} {t : F64} (h : (t, BT.stop) ∈ bounds cfg cs) :
+    ∃ c ∈ elig cfg cs, t = hi cfg c := by
+  induction cs with
+  | nil => simp [bounds] at h
+  | cons c cs ih =>
+    unfold bounds at h
+    unfold elig
+    by_cases he : eligible cfg c = true
+    · simp only [he, if_true, List.mem_cons, Prod.mk.injEq, reduceCtorEq, and_false, false_or] at h
+      rw [List.filter_cons_of_pos he]
+      rcases h with ⟨h1, _⟩ | h
+      · exact ⟨c, List.mem_cons_self .., h1⟩
+      · obtain ⟨c', hc', e⟩ := ih h
+        exact ⟨c', List.mem_cons_of_mem _ hc', e⟩
+    · simp only [he, if_false, Bool.false_eq_true] at h
+      rw [List.filter_cons_of_neg he]
+      exact ih h
+
+/-! ### the running counter, and why a stable sort keeps it from underflowing -/
+
+/-- `cur` alone: `none` = underflow -/
+def runCur : Nat → List Bound → Option Nat
+  | k, [] => some k
+  | k, (_, .start) :: r => runCur (k + 1) r
+  | k, (_, .stop) :: r => if k = 0 then none else runCur (k - 1) r
+
+theorem sweep_cur (l : List Bound) (s : Sweep) : (sweep l s).map (·.cur) = runCur s.cur l := by
+  induction l generalizing s with
+  | nil => rfl
+  | cons b bs ih =>
+    obtain ⟨t, k⟩ := b
+    cases k with
+    | start =>
+      simp only [sweep, sweepStep, runCur]
+      split
+      · rename_i h; split at h <;> cases h
+      · rename_i s1 h
+        rw [ih]
+        split at h <;> (cases h; rfl)
+    | stop =>
+      simp only [sweep, sweepStep, runCur]
+      by_cases hc : s.cur = 0
+      · simp [hc]
+      · simp only [hc, if_false]
+        rw [ih]
+
+theorem runCur_append (k : Nat) (a b : List Bound) :
+    runCur k (a ++ b) = (runCur k a).bind (fun k' => runCur k' b) := by
+  induction a generalizing k with
+  | nil => rfl
+  | cons x xs ih =>
+    obtain ⟨t, kd⟩ := x
+    cases kd with
+    | start => simp only [List.cons_append, runCur, ih]
+    | stop =>
+      simp only [List.cons_append, runCur]
+      by_cases hk : k = 0
+      · simp [hk]
+      · simp only [hk, if_false, ih]
+
+theorem runCur_shift {k k' : Nat} {a : List Bound} (h : runCur k a = some k') :
+    runCur (k + 1) a = some (k' + 1) := by
+  induction a generalizing k with
+  | nil => simp only [runCur, Option.some.injEq] at h ⊢; omega
+  | cons x xs ih =>
+    obtain ⟨t, kd⟩ := x
+    cases kd with
+    | start => simp only [runCur] at h ⊢; exact ih h
+    | stop =>
+      simp only [runCur] at h ⊢
+      by_cases hk : k = 0
+      · simp [hk] at h
+      · simp only [hk, if_false] at h
+        have : k + 1 ≠ 0 := by omega
+        simp only [this, if_false, Nat.add_sub_cancel]
+        have h2 := ih h
+        have e : k - 1 + 1 = k := by omega
+        rw [e] at h2
+        exact h2
+
+/-- a list over which the counter, started anywhere, never underflows and returns to where it started -/
+def Balanced (l : List Bound) : Prop := ∀ k, runCur k l = some k
+
+/-- inserting a Start and, not before it, an End into a balanced list keeps it balanced -/
+theorem balanced_insert {m a l2 : List Bound} {ts te : F64} (h : Balanced (m ++ a ++ l2)) :
+    Balanced (m ++ (ts, BT.start) :: a ++ (te, BT.stop) :: l2) := by
+  intro k
+  have hk := h k
+  rw [runCur_append, runCur_append] at hk
+  cases h1 : runCur k m with
+  | none => simp [h1] at hk
+  | some k1 =>
+    simp only [h1, Option.bind_some] at hk
+    cases h2 : runCur k1 a with
+    | none => simp [h2] at hk
+    | some k2 =>
+      simp only [h2, Option.bind_some] at hk
+      have e : m ++ (ts, BT.start) :: a ++ (te, BT.stop) :: l2 =
+          m ++ ((ts, BT.start) :: (a ++ (te, BT.stop) :: l2)) := by simp
+      rw [e, runCur_append, h1]
+      simp only [Option.bind_some, runCur]
+      rw [runCur_append, runCur_shift h2]
+      simp only [Option.bind_some, runCur]
+      have : k2 + 1 ≠ 0 := by omega
+      simp only [this, if_false, Nat.add_sub_cancel]
+      exact hk
+
+theorem balanced_sorted (cfg : Cfg) (cs : List Cand)
+    (H : ∀ c ∈ elig cfg cs, F64.totalLe (lo cfg c) (hi cfg c) = true) : Balanced (sortedBounds cfg cs) := by
+  induction cs with
+  | nil => intro k; simp [sortedBounds, bounds, runCur]
+  | cons c cs ih =>
+    unfold sortedBounds bounds
+    by_cases he : eligible cfg c = true
+    · simp only [he, if_true]
+      have Hc : F64.totalLe (lo cfg c) (hi cfg c) = true := by
+        apply H; unfold elig; rw [List.filter_cons_of_pos he]; exact List.mem_cons_self ..
+      have Ht : ∀ c' ∈ elig cfg cs, F64.totalLe (lo cfg c') (hi cfg c') = true := by
+        intro c' hc'; apply H; unfold elig; rw [List.filter_cons_of_pos he]
+        exact List.mem_cons_of_mem _ hc'
+      have ihb := ih Ht
+      unfold sortedBounds at ihb
+      obtain ⟨l1, l2, e1, e2, e3⟩ :=
+        List.mergeSort_cons boundLe_trans boundLe_total (hi cfg c, BT.stop) (bounds cfg cs)
+      obtain ⟨m1, m2, f1, f2, f3⟩ :=
+        List.mergeSort_cons boundLe_trans boundLe_total (lo cfg c, BT.start) ((hi cfg c, BT.stop) :: bounds cfg cs)
+      rw [f1]
+      rw [e1] at f2
+      -- the End is not in m1 (Start ≤ End), so m1 is a prefix of l1
+      have hE : (hi cfg c, BT.stop) ∉ m1 := by
+        intro hm
+        have := f3 _ hm
+        simp [boundLe, Hc] at this
+      have hE1 : (hi cfg c, BT.stop) ∉ l1 := by
+        intro hm
+        have := e3 _ hm
+        simp [boundLe, totalLe_refl] at this
+      rcases List.append_eq_append_iff.mp f2 with ⟨a', ha1, ha2⟩ | ⟨c', hc1, hc2⟩
+      · -- m1 = l1 ++ a', E :: l2 = a' ++ m2
+        cases a' with
+        | nil =>
+          simp only [List.append_nil] at ha1
+          simp only [List.nil_append] at ha2
+          rw [← ha2, ha1]
+          rw [e2] at ihb
+          have := balanced_insert (m := l1) (a := []) (ts := lo cfg c) (te := hi cfg c) (by simpa using ihb)
+          simpa using this
+        | cons x xs =>
+          simp only [List.cons_append, List.cons.injEq] at ha2
+          exfalso
+          apply hE
+          rw [ha1, ← ha2.1]
+          simp
+      · -- l1 = m1 ++ c', m2 = c' ++ E :: l2
+        rw [hc2]
+        rw [e2, hc1] at ihb
+        have := balanced_insert (ts := lo cfg c) (te := hi cfg c) ihb
+        simpa using this
+    · simp only [he, if_false, Bool.false_eq_true]
+      have Ht : ∀ c' ∈ elig cfg cs, F64.totalLe (lo cfg c') (hi cfg c') = true := by
+        intro c' hc'; apply H; unfold elig; rw [List.filter_cons_of_neg he]; exact hc'
+      exact ih Ht
+
+/-- the IEEE order implies the total order except for the pair (+0.0, −0.0) -/
+theorem totalLe_of_le {a b : F64} (h : F64.le a b = true)
+    (hz : ¬ (a.signBit = false ∧ a.mag = 0 ∧ b.signBit = true ∧ b.mag = 0)) : F64.totalLe a b = true := by
+  simp only [F64.le, Bool.and_eq_true, decide_eq_true_eq] at h
+  have hk := h.2
+  unfold F64.key at hk
+  simp only [F64.totalLe, decide_eq_true_eq]
+  unfold F64.totalKey
+  by_cases hsa : a.signBit = true <;> by_cases hsb : b.signBit = true <;>
+    simp only [hsa, hsb, if_true, if_false, Bool.false_eq_true] at hk ⊢ <;> try omega
+  -- a positive, b negative: both magnitudes are 0, excluded
+  have ha : a.signBit = false := by simpa using hsa
+  exfalso; apply hz
+  exact ⟨ha, by omega, hsb, by omega⟩
+
 end NtpVerif.Select
